@@ -323,6 +323,7 @@ class RelayWorld:
             st.start_garbage_collector()
         if self.before_clients:
             await self.before_clients(self)
+            st = env.storage            # (the hook may have restarted the storage)
         await sim.quiescent()
         env.states.append((sim.stamp(), env.dump()))
         opts = {"rate_limits": self.rate_limits} if self.rate_limits else {}
